@@ -297,6 +297,19 @@ func coqNs(l []int) string {
 	return "[" + strings.Join(it, "; ") + "]%N"
 }
 
+// tailOf: the line break COMMIT appends after the records of table tb: nothing with
+// --strip-ending-line-break, the session's --line-break for a table the transaction created, the
+// file's own line break (the generator writes LF files) for an existing table
+func (t *c10Txn) tailOf(tb int) []byte {
+	if len(t.LB) == 0 {
+		return nil
+	}
+	if tb >= 11 {
+		return t.LB
+	}
+	return []byte("\n")
+}
+
 func (t *c10Txn) initSnap() fsSnap {
 	s := fsSnap{Files: map[fsPath][]byte{}}
 	for n, c := range t.Init {
@@ -310,7 +323,7 @@ func (t *c10Txn) coqCase(id int, o c10Obs) string {
 	tch := func(l []int) string {
 		it := make([]string, len(l))
 		for i, x := range l {
-			it[i] = fmt.Sprintf("mkT %d%%N %s", x, coqBytes(t.NewBody[x]))
+			it[i] = fmt.Sprintf("mkT %d%%N %s %s", x, coqBytes(t.NewBody[x]), coqBytes(t.tailOf(x)))
 		}
 		return "[" + strings.Join(it, "; ") + "]"
 	}
@@ -318,8 +331,8 @@ func (t *c10Txn) coqCase(id int, o c10Obs) string {
 	for i, a := range t.Acq {
 		acq[i] = fmt.Sprintf("(%s, %d%%N)", coqBool(a.Create), a.Tbl)
 	}
-	return fmt.Sprintf("mkC %d%%N %d%%N %s %s\n  %s\n  [%s] %s %s %s %s %s %s\n  %s\n  %s\n  %s %s",
-		id, id+1, coqBool(t.RenameOv), coqBytes(t.LB), t.initSnap().coq(), strings.Join(acq, "; "),
+	return fmt.Sprintf("mkC %d%%N %d%%N %s\n  %s\n  [%s] %s %s %s %s %s %s\n  %s\n  %s\n  %s %s",
+		id, id+1, coqBool(t.RenameOv), t.initSnap().coq(), strings.Join(acq, "; "),
 		tch(cr), tch(up), coqNs(idle), coqNs(t.ExpCr), coqNs(t.ExpUp), coqNs(t.ExpIdle),
 		coqOps(o.Ops), coqBool(o.Full), o.Snap.coq(), coqBool(o.Recovered))
 }
@@ -381,8 +394,8 @@ func runC10(seed int64, tier string, out string) {
 		}
 		for _, tb := range append(append([]int{}, t.ExpCr...), t.ExpUp...) {
 			c := o.Snap.Files[fsPath{Kind: kData, Tbl: tb}]
-			if len(t.LB) > 0 && bytes.HasSuffix(c, t.LB) {
-				c = c[:len(c)-len(t.LB)]
+			if tl := t.tailOf(tb); len(tl) > 0 && bytes.HasSuffix(c, tl) {
+				c = c[:len(c)-len(tl)]
 			}
 			t.NewBody[tb] = c
 		}
